@@ -198,6 +198,12 @@ func c06Window(r *mon.Run, caseID string, g *rand.Rand, variant string) {
 		if variant == "retrack-window" {
 			slowDel = 25 * time.Millisecond
 		}
+		if variant == "same-hash-retrack" {
+			// slow detector (80 ms) with a slow delete: the driver tracks blocks of the NEW fork before
+			// the reorg is reported; they are in the tail the detector removes after the acknowledgement,
+			// and the driver re-tracks them with the very same hash
+			slowDel, interval = 25*time.Millisecond, 80*time.Millisecond
+		}
 		if variant == "unprocessable-block" {
 			// a detector that looks every 80 ms (production: seconds): the driver reaches the new
 			// fork's blocks before the reorg is reported
@@ -339,6 +345,47 @@ func c06Window(r *mon.Run, caseID string, g *rand.Rand, variant string) {
 			}
 			trace = append(trace, fmt.Sprintf("fork at %d (finalized %d, old head %d); blocks of the new fork cannot be applied while rows of the dropped fork remain", at, fin, head))
 			scen["refused_attempts"] = &refusals
+		case "same-hash-retrack":
+			if w := waitAll(30 * time.Second); w != "" {
+				node.kill(time.Second)
+				r.Violation("C06:initial-sync-incomplete", caseID, w, scen)
+				return
+			}
+			ld, fin := lastDelivered(), ch.Finalized()
+			if ld <= fin {
+				node.kill(time.Second)
+				r.Eval("")
+				return
+			}
+			a1 := fin + 1 + uint64(g.Intn(int(ld-fin)))
+			head := ch.Latest()
+			// the new fork is 3 blocks longer; all its blocks carry events
+			if nb := ch.Fork(a1, int(head-a1)+4, func(uint64, common.Hash, uint64) []fakes.LogSpec { return genericLogs(g, 1, true) }); nb == nil {
+				node.kill(time.Second)
+				r.Eval("")
+				return
+			}
+			trace = append(trace, fmt.Sprintf("fork 1 at %d (finalized %d, old head %d, new head %d); detector interval 80 ms, its DELETE FROM tracked_block takes 25 ms", a1, fin, head, ch.Latest()))
+			if w := waitAll(30 * time.Second); w != "" {
+				node.kill(time.Second)
+				r.Violation("C06:recording-store-does-not-converge:same-hash-retrack", caseID, "after fork 1: "+w, scen)
+				return
+			}
+			time.Sleep(150 * time.Millisecond)
+			for i := 0; i < 2; i++ {
+				ch.Mine(genericLogs(g, 1, true))
+			}
+			if w := waitAll(30 * time.Second); w != "" {
+				node.kill(time.Second)
+				r.Violation("C06:recording-store-does-not-converge:same-hash-retrack", caseID, "after fork 1 and two more blocks: "+w, scen)
+				return
+			}
+			// fork 2 replaces the blocks that were beyond the old head
+			if head+1 <= ch.Finalized() || !forkAt(head+1) {
+				node.kill(time.Second)
+				r.Eval("")
+				return
+			}
 		case "retrack-window":
 			// fork 1 replaces processed blocks by blocks that all carry events; the driver rewinds,
 			// acknowledges and re-tracks the new blocks while the detector's delete of the old range
@@ -385,7 +432,7 @@ func c06Window(r *mon.Run, caseID string, g *rand.Rand, variant string) {
 		}
 
 		// second incarnation (same detector database, same store)
-		if variant != "slow-store" && variant != "retrack-window" && variant != "unprocessable-block" {
+		if variant != "slow-store" && variant != "retrack-window" && variant != "unprocessable-block" && variant != "same-hash-retrack" {
 			if node, err = startWinNode(ch, dir, p, chunk, 1); err != nil {
 				r.Inconclusive("cannot restart node: " + err.Error())
 				return
